@@ -85,14 +85,16 @@ package cache
 //@ func (*BugCache).EditCreateCommentRaw
 //@ func (*BugCache).EditCommentRaw
 //@ func (*BugCache).SetMetadataRaw
-//@   props C18
+//@   props C18 C11
 //@   opt locks
 //@   opt post_unguarded
 //@   requires [authored-by-request-user] requestUser != nil ==> typeof(author) == type[*IdentityCache] && author.(*IdentityCache) == requestUser
 //@   requires [not-held@locks] c != nil && sync.rwheld[&c.mu] == 0
-//@   modifies bugOps, repoWrites
+//@   modifies bugOps, repoWrites, entityNotifies
 //@   opt trusted_frame
+//@   stable entityNotifies
 //@   defines bugOps >= old(bugOps) && (err == nil ==> bugOps == old(bugOps) + 1)
+//@   ensures [sub-cache-notified] err == nil ==> entityNotifies == old(entityNotifies) + 1
 //@   ensures [lock-balanced] forall m *sync.RWMutex :: { sync.rwheld[m] } sync.rwheld[m] == old(sync.rwheld[m])
 //@ func (*RepoCacheBug).NewRaw
 //@   trusted
@@ -109,8 +111,9 @@ package cache
 //@   opt interior_ok
 //@   opt post_unguarded
 //@   requires [entity-lock-free@locks] e != nil && sync.rwheld[&e.mu] == 0
-//@   modifies repoWrites
+//@   modifies repoWrites, entityNotifies
 //@   opt trusted_frame
+//@   ensures [notified] entityNotifies == old(entityNotifies) + 1
 //@   ensures [lock-balanced] forall m *sync.RWMutex :: { sync.rwheld[m] } sync.rwheld[m] == old(sync.rwheld[m])
 
 //@ func (*BugCache).AddComment
@@ -569,10 +572,27 @@ package cache
 //@   requires [not-held] sc != nil && sync.rwheld[&sc.mu] == 0
 //@   ensures [lock-balanced] forall m *sync.RWMutex :: { sync.rwheld[m] } sync.rwheld[m] == old(sync.rwheld[m])
 
+// entityNotifies counts the notifications sent to the sub-cache (calls of the entityUpdated callback): every
+// successful edit or commit through a cached entity ends with exactly one, which is what keeps the excerpt, the
+// index and the cache file in step with the entity (C11).
+//@ ghost var entityNotifies int
+//@ func CachedEntityBase.entityUpdated
+//@ func IdentityCache.entityUpdated
+//@   modifies entityNotifies, repoWrites
+//@   ensures entityNotifies == old(entityNotifies) + 1
+
 // Committing, validating and mutating a cached entity: the entity lock is taken and released around the
 // entity-level call on every path, and the sub-cache is notified with no lock held.
 //@ func (*CachedEntityBase).Commit
 //@ func (*CachedEntityBase).CommitAsNeeded
+//@   props C18 C11
+//@   opt locks
+//@   opt interior_ok
+//@   opt post_unguarded
+//@   stable entityNotifies
+//@   requires [not-held@locks] e != nil && sync.rwheld[&e.mu] == 0
+//@   ensures [lock-balanced] forall m *sync.RWMutex :: { sync.rwheld[m] } sync.rwheld[m] == old(sync.rwheld[m])
+//@   ensures [sub-cache-notified] result == nil ==> entityNotifies == old(entityNotifies) + 1
 //@ func (*CachedEntityBase).NeedCommit
 //@ func (*CachedEntityBase).Validate
 //@   props C18
